@@ -205,7 +205,7 @@ func (in *instrumenter) racyPoint(s ast.Stmt) {
 		return
 	}
 	switch s.(type) {
-	case *ast.AssignStmt, *ast.ExprStmt, *ast.ReturnStmt, *ast.IncDecStmt, *ast.IfStmt:
+	case *ast.AssignStmt, *ast.ExprStmt, *ast.ReturnStmt, *ast.IncDecStmt, *ast.IfStmt, *ast.ForStmt:
 	default:
 		return
 	}
@@ -245,6 +245,26 @@ func (in *instrumenter) racyPoint(s ast.Stmt) {
 		}
 		target = ifs.Cond
 	}
+	if fs, ok := s.(*ast.ForStmt); ok {
+		// the loop head (init and condition) reads a contended field: one point before the loop
+		hit := false
+		for _, n := range []ast.Node{fs.Init, fs.Cond} {
+			if n == nil || n == ast.Node((*ast.AssignStmt)(nil)) || n == ast.Node(ast.Expr(nil)) {
+				continue
+			}
+			ast.Inspect(n, func(m ast.Node) bool {
+				if e, ok := m.(ast.Expr); ok && isRacy(e) {
+					hit = true
+				}
+				return true
+			})
+		}
+		if hit {
+			in.ins(s.Pos(), in.point("load", s.Pos()))
+			racyPoints = append(racyPoints, in.posStr(s.Pos())+" load")
+		}
+		return
+	}
 	store, load := false, false
 	if as, ok := s.(*ast.AssignStmt); ok {
 		for _, l := range as.Lhs {
@@ -262,6 +282,10 @@ func (in *instrumenter) racyPoint(s ast.Stmt) {
 				}
 				return true
 			})
+		}
+	} else if ids, ok := s.(*ast.IncDecStmt); ok {
+		if isRacy(ids.X) {
+			load, store = true, true
 		}
 	} else {
 		ast.Inspect(target, func(n ast.Node) bool {
